@@ -7,7 +7,7 @@ Record obs := mkObs {
   o_rid : Z;                        (* registry identity of the result; -1 for nil (nil-ness and pointer identity) *)
   o_ok : bool;                      (* ers.Ok(result) *)
   o_unwind : list Z;                (* ers.Unwind(result) as identities *)
-  o_sunwind : option (list Z);      (* result.(*ers.Stack).Unwind() when the result is a *ers.Stack *)
+  o_sunwind : option (list Z);      (* Stack.Unwind() of the result when it is a Stack pointer *)
   o_is : list (err * bool);         (* errors.Is(result, t) for every leaf t of the universe *)
   o_as : list (askind * Z);         (* errors.As(result, &target of that type): identity found, -1 if none *)
   o_len : Z                         (* Collector.Len() / Stack.Len() of the top-level object, -1 otherwise *)
